@@ -53,6 +53,7 @@ fn conn(cell: &Cell, id: &str) -> Result<Conn, String> {
 fn scripted(seed: u64, jitter: u64, rep: &Report) -> Result<(), String> {
     let (mut cell, mut cfg) = simple_cell(&["primary"], 1, "transaction");
     cfg.gset("connect_timeout", "5000");
+    cfg.gset("idle_client_in_transaction_timeout", "150");
     let mut so = StartOpts::default();
     if jitter > 0 {
         so.jitter = Some(format!("{}:{}:client.", seed, jitter));
@@ -194,6 +195,43 @@ fn scripted(seed: u64, jitter: u64, rep: &Report) -> Result<(), String> {
             wit(&mut cell),
         );
     }
+    // ---- Phase I/J: X gives its server back by a path on which no ReadyForQuery(idle) comes from the
+    // server (a lone Sync answered by the pooler; the idle-in-transaction timeout); afterwards Y
+    // runs on that server and X's key must be dead
+    for path in ["lone_sync", "idle_in_transaction_timeout"] {
+        match path {
+            "lone_sync" => {
+                x.send(&proto::sync()).map_err(|e| e.to_string())?;
+                let _ = x.read_until_ready(5000).map_err(|(m, e)| format!("X lone sync: {:?} {}", e, summarize(&m)))?;
+            }
+            _ => {
+                let _ = x.query(&format!("BEGIN {}", tag("X", "X.j1", "")), 5000).map_err(|(m, e)| format!("X begin: {:?} {}", e, summarize(&m)))?;
+                // wait for the pooler's timeout (150 ms) to take the server away
+                let _ = x.read_until_ready(3000);
+            }
+        }
+        sleep_ms(40);
+        y.send(&proto::query(&format!("SELECT 1 {}", tag("Y", &format!("Y.{}", path), "sleep=400")))).map_err(|e| e.to_string())?;
+        if !wait_running(&cell, "Y", 3000) {
+            return Err("Y's statement never started".into());
+        }
+        let n0 = cell.log.len();
+        send_cancel(&addr, x.pid, x.key).map_err(|e| e.to_string())?;
+        rep.count("cancels_after_server_returned_without_server_ready", 1);
+        let r = y.read_until_ready(5000).map_err(|(m, e)| format!("Y reply: {:?} {}", e, summarize(&m)))?;
+        sleep_ms(60);
+        let cs = cancels_since(&cell, n0);
+        if first_error(&r).is_some() || !cs.is_empty() {
+            rep.violation(
+                &format!("C10|key_of_client_without_server_cancelled_another_clients_statement|returned_by={}", path),
+                &format!("X had given its server back ({}) and held none; a cancel with X's key then cancelled Y's statement on that server: Y got {}, {} CancelRequests at the server", path, summarize(&r), cs.len()),
+                wit(&mut cell),
+            );
+        }
+        if path != "lone_sync" {
+            // X's connection state after the timeout error is not of interest any more
+        }
+    }
     x.terminate();
     y.terminate();
     Ok(())
@@ -276,7 +314,17 @@ fn storm(seed: u64, rep: &Report) -> Result<(), String> {
     }
     rep.count("storm_statements_cancelled", total_cancelled);
     rep.count("storm_cancels_sent", sent.len() as u64);
-    for e in cell.log.snapshot() {
+    // who used which server session when (a CancelRequest is handled by the server some time after
+    // the pooler forwarded it: the session may have moved on to its next client meanwhile, exactly
+    // as with a direct connection to PostgreSQL)
+    let all_events = cell.log.snapshot();
+    let mut usage: std::collections::HashMap<u64, Vec<(u64, String)>> = std::collections::HashMap::new();
+    for e in &all_events {
+        if let Ev::MockMsg { sid, client: Some(c), .. } = &e.ev {
+            usage.entry(*sid).or_default().push((e.t, c.clone()));
+        }
+    }
+    for e in all_events.iter() {
         if let Ev::MockCancel {
             matched_sid,
             running,
@@ -299,8 +347,16 @@ fn storm(seed: u64, rep: &Report) -> Result<(), String> {
             // at most 2 s earlier
             let who = running.as_ref().map(|r| r.0.clone()).or(session_client.clone());
             if let Some(w) = who {
-                let idx: Option<usize> = w.strip_prefix('s').and_then(|s| s.parse().ok());
-                let justified = sent.iter().any(|(t, tgt)| *tgt == idx && *t <= e.t && e.t - *t < 2_000_000_000);
+                // clients that used this session in the 2 s before the CancelRequest arrived
+                let mut users: Vec<String> = usage
+                    .get(&matched_sid.unwrap())
+                    .map(|v| v.iter().filter(|(t, _)| *t <= e.t && e.t - *t < 2_000_000_000).map(|x| x.1.clone()).collect())
+                    .unwrap_or_default();
+                users.push(w.clone());
+                let justified = users.iter().any(|u| {
+                    let idx: Option<usize> = u.strip_prefix('s').and_then(|s| s.parse().ok());
+                    sent.iter().any(|(t, tgt)| *tgt == idx && *t <= e.t && e.t - *t < 2_000_000_000)
+                });
                 if !justified {
                     rep.violation(
                         "C10|cancel_reached_session_of_client_nobody_cancelled",
